@@ -72,8 +72,15 @@ def _GenerateConstant(cv: LinearIR.ConstantValue) -> WebAssembly.Instruction:
     t = cv.Type
     if t.IsScalar():
         if isinstance(t, LinearIR.IntegerType):
+            value = cv.Value
+            # The immediate is a 32 bit value: unsigned constants use the same
+            # bits as their signed counterpart, anything larger does not fit
+            if t.Unsigned and value >= 2**31 and value < 2**32:
+                value -= 2**32
+            if value < -(2**31) or value >= 2**31:
+                raise Exception(f"Constant does not fit into 32 bits: {cv}")
             return WebAssembly.Instruction(
-                WebAssembly.opcodes["i32.const"], (cv.Value,)
+                WebAssembly.opcodes["i32.const"], (value,)
             )
         elif isinstance(t, LinearIR.FloatType):
             return WebAssembly.Instruction(
